@@ -16,4 +16,45 @@ func init() {
 		},
 		Quick: 40, Thorough: 600, Real: commonReal, Simulated: commonSim,
 	}
+	Props["C07"] = &PropSpec{
+		ID: "C07", Level: "exploration",
+		Technique: "deterministic simulation: independent fsck of every quiescent disk image reached by the sequential, crash-recovery and concurrent engines",
+		Rule: "one case = an engine run (generated history; later: crash recovery, concurrent run) whose every quiescent checkpoint (after Flush, after Close, after GC+Flush, after recovery) is checked by an independent parser of header, index log, bucket table/snapshot, primary and freelist files; " +
+			"non-trivial = at least one checkpoint was checked on a store where two keys share a bucket or a file rolled over; distinct = distinct (plan hash, schedule hash)",
+		Nontrivial: func(o *RunOut) bool {
+			return o.Probes["fsck"] > 0 && (o.Probes["bucket-shared"] > 0 || o.Probes["index-rolled"] > 0 || o.Probes["primary-rolled"] > 0)
+		},
+		Assumptions: []string{
+			"the file formats are as documented in DESIGN.md Appendix D (re-implemented, not shared with the store)",
+			"seeded sampling of reachable quiescent states, not enumeration",
+		},
+		Quick: 40, Thorough: 600, Real: commonReal, Simulated: commonSim,
+	}
+	Props["C03"] = &PropSpec{
+		ID: "C03", Level: "fault_enumeration",
+		Technique: "deterministic simulation with crash-point enumeration: every mutating file operation of a generated history (plus torn-write prefixes and nested crashes) is a crash image booted in a fresh simulated process and checked against the recovery-admissibility oracle, then driven on through GC and reopen",
+		Rule: "one case = a generated forward history (puts, removes, flushes, GC cycles, reopen) whose mutating file operations are crash points; quick boots a seeded sample of <= 24 crash images per history (incl. torn prefixes, 10% nested crashes), thorough boots every crash point with torn variants; " +
+			"each image: open must succeed, every key must read as its last-flushed value or a later acknowledged/in-flight one, Get/Has/GetSize agree, then follow-up ops + flush + fsck + 2 GC cycles of each kind + reopen + read-back; non-trivial = a history with at least one recovery booted; distinct = distinct (plan hash, schedule hash); distinct crash images are reported separately",
+		Nontrivial: func(o *RunOut) bool { return o.Probes["recoveries"] > 0 },
+		Assumptions: []string{
+			"process crash only: everything written with write(2) survives (no power loss / no loss of un-fsynced data), as the property states",
+			"crash points are at file-operation granularity; a write is torn at byte granularity",
+			"histories are sampled; within a history the thorough tier enumerates every crash point",
+		},
+		Quick: 45, Thorough: 900, Real: commonReal, Simulated: commonSim,
+	}
+	Props["C04"] = &PropSpec{
+		ID: "C04", Level: "exploration",
+		Technique: "deterministic simulation: seeded histories with index-GC and primary-GC cycles (scan-free on/off, low-use thresholds, countdown-interrupted cycles) checked against the map reference model",
+		Rule: "one case = generated history on small file limits with GC cycles of both kinds interleaved at arbitrary positions (with unflushed data, repeated, interrupted after n context checks and resumed); map model checked on every later call, iteration and a reopen; " +
+			"non-trivial = at least one GC cycle ran on a store where a file had rolled over; distinct = distinct (plan hash, schedule hash)",
+		Nontrivial: func(o *RunOut) bool {
+			return (o.Probes["index-gc"] > 0 || o.Probes["primary-gc"] > 0) && (o.Probes["index-rolled"] > 0 || o.Probes["primary-rolled"] > 0)
+		},
+		Assumptions: []string{
+			"seeded sampling of histories (<= 60 calls, <= 15 GC cycles)",
+			"a GC cycle that returns an error is not counted as a content change (progress is C11's concern)",
+		},
+		Quick: 40, Thorough: 600, Real: commonReal, Simulated: commonSim,
+	}
 }
